@@ -45,6 +45,7 @@ type LifeScenario struct {
 	HandlerPanics      bool   `json:"handler_panics"`         // the gated handler panics (default LogPanic recovery) once released, i.e. during the teardown
 	BgBusy             bool   `json:"bg_busy"`                // a background handler is still at work during the whole teardown (it returns only after DISCONNECTED): teardown must not wait for it
 	CloseFromBg        bool   `json:"close_from_bg"`          // the Close of cause "close" is called by a background handler
+	CancelEarly        string `json:"cancel_early"`           // "" | before | during : the context given to ConnectContext is cancelled before the call / while the (context-unaware) dialer is at work
 	SilentMs           int    `json:"silent_ms"`              // before the cause the server stays connected but silent for this long, never answering the client's PINGs (Timeout is set to a fifth of it)
 }
 
@@ -235,6 +236,42 @@ func runLifeScenario(sc LifeScenario) LifeResult {
 	cancel := func() {}
 	if sc.UseCtx || strings.Contains(sc.Cause, "cancel") {
 		ctx, cancel = context.WithCancel(context.Background())
+	}
+	if sc.CancelEarly != "" {
+		// the dialer reached through Config.Proxy knows nothing of contexts (x/net/proxy's plain Dialer): the dial
+		// succeeds although the context is done. Whatever Connect then returns, the events must agree with it: an error
+		// means no event at all; success means REGISTER, and the DISCONNECTED the cancellation brings comes after it.
+		ctx, cancel = context.WithCancel(context.Background())
+		if sc.CancelEarly == "before" {
+			cancel()
+		} else {
+			memconn.PresetDialDelay(url, 20*time.Millisecond)
+			go func() { time.Sleep(5 * time.Millisecond); cancel() }()
+		}
+		lg.add("connect-call")
+		err := conn.ConnectContext(ctx)
+		if err != nil {
+			lg.add("connect-ret err")
+		} else {
+			lg.add("connect-ret ok")
+		}
+		select {
+		case <-conns:
+		case <-time.After(time.Second):
+		}
+		if err == nil {
+			waitFor(func() bool { return lg.count("DISCONNECTED") >= 1 }, 4*time.Second)
+		}
+		time.Sleep(30 * time.Millisecond)
+		if conn.Connected() {
+			lg.add("cause close")
+			conn.Close()
+			lg.add("close-ret")
+		}
+		waitFor(func() bool { return len(libGoroutines()) == 0 }, 500*time.Millisecond)
+		res.Leaked = libGoroutines()
+		res.Log = lg.evs
+		return res
 	}
 	lg.add("connect-call")
 	err := conn.ConnectContext(ctx)
